@@ -60,7 +60,11 @@ type Finding struct {
 	Property  string `json:"property"`
 	Class     string `json:"class,omitempty"`
 	KeyPrefix string `json:"key_prefix,omitempty"`
-	What      string `json:"what"`
+	// KeyContains: with an empty KeyPrefix, the finding covers every key that
+	// contains one of these substrings (call sites, e.g. the functions that write
+	// into a schema other goroutines already hold)
+	KeyContains []string `json:"key_contains,omitempty"`
+	What        string   `json:"what"`
 	Commit    string `json:"commit,omitempty"`
 }
 
@@ -96,7 +100,18 @@ func LoadKnown(path, prop string) error {
 // KnownIndex returns the index of the known finding that lists v, or -1.
 func KnownIndex(v *Violation) int {
 	for i, f := range Known {
-		if f.Class == v.Class && strings.HasPrefix(v.Key, f.KeyPrefix) {
+		if f.Class != v.Class {
+			continue
+		}
+		if len(f.KeyContains) > 0 && f.KeyPrefix == "" {
+			for _, sub := range f.KeyContains {
+				if strings.Contains(v.Key, sub) {
+					return i
+				}
+			}
+			continue
+		}
+		if strings.HasPrefix(v.Key, f.KeyPrefix) {
 			return i
 		}
 	}
